@@ -179,6 +179,7 @@ type c47W struct {
 	b   strings.Builder
 	// what the spelling actually used (for the evidence counters)
 	usedCDATA, usedCharRef, usedEntity, shadowedD, redeclDefault, usedAposQuote, attrCDEnd bool
+	plain bool // never spell "]]>" literally inside an attribute value
 }
 
 var c47Prefixes = []string{"D", "D", "d", "a", "b", "ns0", "x", "_", "p1", "ü", "DAV", "lp1", "R"}
@@ -322,7 +323,7 @@ func (w *c47W) attrValue(s string) {
 		case r == '&':
 			w.b.WriteString(w.entOrRef("&amp;", r))
 		case r == '>':
-			if w.rng.IntN(2) == 0 {
+			if w.rng.IntN(2) == 0 && !w.plain {
 				w.b.WriteString(">")
 			} else {
 				w.b.WriteString(w.entOrRef("&gt;", r))
@@ -557,7 +558,11 @@ func c47StripPad(n *c47Node, depth int) {
 
 // c47Doc spells a whole document.
 func c47Doc(rng *rand.Rand, root *c47Node) (string, *c47W) {
-	w := &c47W{rng: rng}
+	return c47DocOpt(rng, root, false)
+}
+
+func c47DocOpt(rng *rand.Rand, root *c47Node, plain bool) (string, *c47W) {
+	w := &c47W{rng: rng, plain: plain}
 	switch rng.IntN(5) {
 	case 0:
 		w.b.WriteString(`<?xml version="1.0" encoding="utf-8"?>` + "\n")
@@ -1315,6 +1320,15 @@ func (x *c47Run) applyPatchBody(p string, pt *c47Patch, body string, w *c47W) (n
 		return false, sig
 	}
 
+	if code != 207 && p != "/" && w.attrCDEnd {
+		// Find out whether the refusal is about the spelling: the request was refused as a
+		// whole, so the same document may be sent again with "]]>" escaped in attributes.
+		body2, _ := c47DocOpt(x.rng, c47PatchDoc(pt), true)
+		if code2, resp2 := x.do("PROPPATCH", p, "", body2); code2 == 207 {
+			x.viol("proppatch-rejected:cdata-end-marker-in-attribute-value", "well-formed PROPPATCH on %s answered %d %q; the same document with ]]&gt; instead of ]]> inside attribute values is accepted\nrequest:\n%s", p, code, strings.TrimSpace(resp), c47Cut(body, 2500))
+			body, code, resp = body2, code2, resp2
+		}
+	}
 	if code != 207 && p == "/" {
 		// memFS refuses to open its root for writing, so the handler cannot patch it. Which
 		// resources accept dead properties is not what the statement is about: counted, the
@@ -1324,11 +1338,8 @@ func (x *c47Run) applyPatchBody(p string, pt *c47Patch, body string, w *c47W) (n
 	}
 	if code != 207 {
 		key := "proppatch-rejected:other"
-		switch {
-		case nestedSame:
+		if nestedSame {
 			key = "proppatch-rejected:value-nests-element-named-like-property"
-		case w.attrCDEnd:
-			key = "proppatch-rejected:cdata-end-marker-in-attribute-value"
 		}
 		x.viol(key, "well-formed PROPPATCH of dead properties on existing resource %s answered %d %q\nrequest:\n%s", p, code, strings.TrimSpace(resp), c47Cut(body, 2500))
 		// The request was refused as a whole: nothing may have changed (verified by the
@@ -1893,21 +1904,21 @@ func TestVerif_C47(t *testing.T) {
 		r.EvalHash(nt, sig)
 	})
 
-	r.CasesParallel("single", r.N(3000, 36000), 0, single)
-	r.CasesParallel("history", r.N(400, 4800), 0, history)
+	r.CasesParallel("single", r.N(2400, 36000), 0, single)
+	r.CasesParallel("history", r.N(300, 4800), 0, history)
 
 	r.Require("directed_cases", int64(len(c47Directed)))
-	r.Require("proppatch_requests", 5000)
-	r.Require("values_compared", 10000)
-	r.Require("values_equal_with_nested_elements", 1000)
-	r.Require("set_value_needs_escaping", 2000)
-	r.Require("removes_of_existing_property", 2000)
-	r.Require("removed_properties_verified_absent", 2000)
-	r.Require("spelled_with_cdata", 500)
-	r.Require("spelled_shadowing_D_prefix", 200)
-	r.Require("spelled_redeclaring_default_ns", 200)
-	r.Require("set_dead_property_in_DAV_namespace", 300)
-	r.Require("set_live_local_name_in_other_namespace", 300)
+	r.Require("proppatch_requests", 4000)
+	r.Require("values_compared", 5000)
+	r.Require("values_equal_with_nested_elements", 500)
+	r.Require("set_value_needs_escaping", 1500)
+	r.Require("removes_of_existing_property", 1500)
+	r.Require("removed_properties_verified_absent", 5000)
+	r.Require("spelled_with_cdata", 1000)
+	r.Require("spelled_shadowing_D_prefix", 1000)
+	r.Require("spelled_redeclaring_default_ns", 1500)
+	r.Require("set_dead_property_in_DAV_namespace", 400)
+	r.Require("set_live_local_name_in_other_namespace", 400)
 	r.Require("live_property_patch_attempts", 100)
-	r.Require("lang_nonempty_equal", 300)
+	r.Require("lang_nonempty_equal", 1000)
 }
